@@ -402,7 +402,7 @@ func main() {
 			RunPath: func(p []uint16) (uint64, explore.Status) { return runPath(c, p) }}
 	}
 	if r.Replay != "" {
-		r.Fault("replay: apply detail.operations to the widget named in detail.widget; not implemented")
+		r.ReplayBySearch()
 	}
 	if _, _, arg, ok := r.Worker(); ok {
 		r.Watchdog(30 * time.Second)
